@@ -119,6 +119,21 @@ fn find_slice_files(paths: &[String], are_source_files: bool, diagnostics: &mut 
             continue;
         }
 
+        // If the path is neither a file nor a directory (it's a pipe, a device, ...), report an error and continue.
+        if !path_buf.is_file() && !path_buf.is_dir() {
+            let io_error = io::Error::new(
+                io::ErrorKind::InvalidInput,
+                "Expected a Slice file but found something that is neither a file nor a directory.",
+            );
+            Diagnostic::new(Error::IO {
+                action: "read",
+                path: path.to_owned(),
+                error: io_error,
+            })
+            .push_into(diagnostics);
+            continue;
+        }
+
         // If the path is a directory and directories are not allowed, report an error and continue.
         if path_buf.is_dir() && !allow_directories {
             // If the path is a file, check if it is a slice file.
